@@ -334,13 +334,12 @@ def real_lookup(case: dict, root: Path) -> tuple[list[str], list[list[str]]]:
     return _encode(case, cls, val, root), cmdinsts
 
 
-def _observe_chunk(cases: list[dict]) -> list[dict]:
+def _observe_chunk(cases: list[dict]) -> list[tuple[list[str], list[list[str]]]]:
     root = core.new_dir("c18-files").resolve()
     out = []
     for case in cases:
         _clean(root)
-        real, cmdinsts = real_lookup(case, root)
-        out.append({"case": case, "real": real, "cmdinsts": cmdinsts})
+        out.append(real_lookup(case, root))
     shutil.rmtree(root, ignore_errors=True)
     return out
 
@@ -352,10 +351,8 @@ def observe(cases: list[dict]) -> list[dict]:
 
     chunks = [cases[i : i + 400] for i in range(0, len(cases), 400)]
     parts = core.pmap(_observe_chunk, chunks, chunk=1)
-    obs = [o for part in parts for o in part]
-    for tid, o in enumerate(obs):
-        o["tid"] = tid
-    return obs
+    results = [r for part in parts for r in part]
+    return [{"tid": tid, "case": c, "real": real, "cmdinsts": ci} for tid, (c, (real, ci)) in enumerate(zip(cases, results))]
 
 
 # ------------------------------------------------------------------------------------------------
@@ -488,6 +485,9 @@ _SENS = [
     ("Config.dropfalsy.cfg", "DropFalsyFollowsDocs", "assembly drops falsy command-line values (--no-flag, --int 0, [])"),
     ("Config.dropdefault.cfg", "DropDefaultSettingsFollowsDocs", "assembly drops -e/-d settings equal to the built-in default"),
     ("Config.maindir.cfg", "MainDirFollowsDocs", "path entries resolved against the main file's directory"),
+    ("Config.argvfirst.cfg", "ArgvFirstWinsFollowsDocs", "a repeated --flag / --int N keeps its first value"),
+    ("Config.allbeats.cfg", "AllBeatsSingleFollowsDocs", "--enable-all / --disable-all override -e / -d"),
+    ("Config.noclasscfg.cfg", "NoClassConfigFollowsDocs", "the visitor class's config_filename is ignored"),
 ]
 
 
@@ -496,9 +496,9 @@ def sensitivity(check: core.Check) -> None:
     rejected by the trace specification."""
 
     def one(item: tuple[str, str, str]) -> core.TLCResult:
-        return core.run_tlc("Config", item[0], workers=4, timeout=900)
+        return core.run_tlc("Config", item[0], workers=2, timeout=900)
 
-    with ThreadPoolExecutor(len(_SENS)) as ex:
+    with ThreadPoolExecutor(4) as ex:
         results = list(ex.map(one, _SENS))
     for (cfg, inv, what), res in zip(_SENS, results):
         if res.violated != inv:
@@ -542,17 +542,18 @@ def sensitivity(check: core.Check) -> None:
 # the other kinds); 1 = every case.  Malformed configurations are always printed.
 EMIT = {
     "Config.quick.cfg": (24, 4),
-    "Config.thorough.cfg": (128, 8),
+    "Config.thorough.cfg": (256, 16),
     "Config.cmdline.cfg": (4, 1),
-    "Config.cmdline3.cfg": (16, 2),
+    "Config.cmdline3.cfg": (32, 4),
 }
 
 
 def _model_check(check: core.Check, cfg: str, what: str) -> tuple[core.TLCResult, list[dict]]:
     mod_bool, mod_rest = EMIT[cfg]
     env = {"C18_EMIT_MOD": str(mod_bool), "C18_EMIT_MOD_REST": str(mod_rest), "C18_EMIT_REM": str(check.seed % 9973)}
-    res = core.require_ok(core.run_tlc("ConfigSim", cfg, timeout=6000, env=env), what)
+    res = core.require_ok(core.run_tlc("ConfigSim", cfg, timeout=10800, env=env), what)
     cases = core.emitted_json(res)
+    res.stdout = ""  # hundreds of MB in the thorough tier
     if not cases:
         raise core.MachineryError(f"no cases printed by TLC for {cfg}")
     return res, cases
@@ -626,6 +627,7 @@ def run(check: core.Check) -> None:
         "non-trivial = more than one file, or a command-line value/argv, or malformed"
     )
     judge(check, cases, "tlc-exhaustive")
+    cases.clear()
     judge(check, cl_cases, "tlc-cmdline")
     judge(check, sim_cases, "tlc-simulate")
     # 3. the real program for a sample of the argv cases (module () only: that is what --display-options shows)
